@@ -49,6 +49,12 @@ fn make_case(rng: &mut Rng, ctx: &Ctx, class: Class, full: bool, service_ok: boo
     };
     let mut plan = default_plan(&p, mk::secret16(rng));
     plan.cookies = vec![(AUTH_KEY.to_string(), ck.payload.clone())];
+    // a returning client also presents a session cookie (unsigned, its own to choose): that has
+    // no bearing on whether the authentication cookie is acceptable
+    if rng.chance(1, 2) {
+        let session = serde_json::to_vec(&json!({"id": uuid_string(rng.u64() as u128), "server_address": "hub.example.com", "server_port": 25565})).expect("json");
+        plan.cookies.push((mk::SESSION_KEY.to_string(), Some(session)));
+    }
     if !full {
         // the flag is inside the Encryption Request: stop there (no RSA needed)
         plan.script = vec![
